@@ -94,6 +94,7 @@ class AtomTable(object):
         self.atoms = []
         self.syms = {}
         self.fns = {}      # name -> list of atoms
+        self.struct = {}   # structural key -> atom
         self.unk = 0
 
     def _new(self, kind, name, args=(), extra=None):
@@ -118,13 +119,21 @@ class AtomTable(object):
         return self._new('unk', '?%d<%s>' % (self.unk, reason))
 
     def fn(self, name, args):
-        """intern f(args): args are Rat (or other hashable constants such as str)"""
-        lst = self.fns.setdefault(name, [])
-        for a in lst:
-            if len(a.args) == len(args) and all(_arg_eq(x, y) for x, y in zip(a.args, args)):
-                return a
-        a = self._new('fn', name, args)
-        lst.append(a)
+        """intern f(args): args are Rat (or other hashable constants such as str).  Structural match first (hash),
+        then - except for definition atoms - folded algebraic equality among candidates over the same generators."""
+        skey = (name, tuple((x.num.key(), x.den.key()) if isinstance(x, Rat) else ('c', x) for x in args))
+        a = self.struct.get(skey)
+        if a is not None:
+            return a
+        sets = tuple(frozenset(x.num.atoms() | x.den.atoms()) if isinstance(x, Rat) else None for x in args)
+        if name != 'def':
+            for b in self.fns.get(name, ()):
+                if len(b.args) == len(args) and b.extra == sets and all(_arg_eq(x, y) for x, y in zip(b.args, args)):
+                    self.struct[skey] = b
+                    return b
+        a = self._new('fn', name, args, sets)
+        self.fns.setdefault(name, []).append(a)
+        self.struct[skey] = a
         return a
 
 
@@ -1137,6 +1146,12 @@ def map_atoms(r, f, _memo=None):
             if changed:
                 v = rebuild_fn(a.name, nargs)
                 # f may further replace the rebuilt atom
+                if len(v.num.t) == 1 and v.den.is_const():
+                    (mm, cc), = v.num.t.items()
+                    if len(mm[0]) == 1 and not mm[1] and mm[0][0][1] == 1 and cc == v.den.const_value():
+                        fv = f(TABLE.atoms[mm[0][0][0]])
+                        if fv is not None:
+                            v = fv
                 _memo[k] = v
                 return v
         v = f(a)
@@ -1174,6 +1189,39 @@ def rebuild_fn(name, args):
     if f is not None:
         return f(args)
     return opaque(name, args)
+
+
+def assume(r, cond, value):
+    """simplify r under the assumption that the condition (a Rat that is a single condition atom) is True/False:
+    every ite(cond, a, b) becomes a resp. b (also for the negated condition atom)"""
+    ca = None
+    if len(cond.num.t) == 1 and cond.den.is_const():
+        (m, c), = cond.num.t.items()
+        if len(m[0]) == 1 and not m[1]:
+            ca = TABLE.atoms[m[0][0][0]]
+    if ca is None:
+        return r
+    flip = {'lt': 'ge', 'ge': 'lt', 'le': 'gt', 'gt': 'le', 'eq': 'ne', 'ne': 'eq'}
+
+    def f(a):
+        if a.kind == 'fn' and a.name == 'ite' and isinstance(a.args[0], Rat):
+            c0 = a.args[0]
+            if c0.equals(cond):
+                return a.args[1] if value else a.args[2]
+            if ca.name in flip:
+                neg = opaque(flip[ca.name], ca.args)
+                if c0.equals(neg):
+                    return a.args[2] if value else a.args[1]
+        return None
+    # iterate: replaced branches may contain further ites on the same condition
+    prev = None
+    cur = r
+    for _ in range(6):
+        nxt = map_atoms(cur, f)
+        if nxt.num == cur.num and nxt.den == cur.den:
+            break
+        cur = nxt
+    return cur
 
 
 def subst(r, mapping):
